@@ -216,6 +216,7 @@ PROPS = {
     "C14": dict(
         lean_modules=["PalomaModel.Props.C14", "PalomaModel.Props.Consts.Queue", "PalomaModel.Props.Translated.C14"], gen=["ConstTable.lean", "Translated.lean"],
         harness_test="TestC14",
+        extra_tests=[{"test": "TestC14Fees", "dir": "C14F", "n_quick": 300, "n_thorough": 3000}],
         n_quick=300, n_thorough=2500, thorough_seeds=6, timeout_quick=900,
         spec_ops=["*"],  # every observable the driver prints for this property is the property's own subject (canonical state / verdicts)
         rule="full application: snapshots, metrics, fee tables, trait sets and MEV requirement flags incl. score ties and missing records; queues mixing UpdateValset / SubmitLogicCall / UploadUserSmartContract with several senders (incl. empty), "
